@@ -3,6 +3,7 @@ use crate::error::Converter;
 use crate::paged_writer::PagedWriter;
 use crate::pc_writer::PointCloudWriter;
 use crate::root::{serialize_root, Root};
+use crate::xml;
 use crate::{
     Blob, DateTime, Error, Extension, Header, Image, ImageWriter, PointCloud, Record, Result,
 };
@@ -133,6 +134,13 @@ impl<T: Write + Read + Seek> E57Writer<T> {
             &self.images,
             &self.extensions,
         )?;
+        // Strings with characters that do not exist in XML cannot be stored, the file would be unreadable
+        if let Some(c) = xml.chars().find(|c| !xml::is_xml_char(*c)) {
+            Error::invalid(format!(
+                "The character U+{:04X} is not allowed in XML and cannot be stored",
+                c as u32
+            ))?
+        }
         let xml = transformer(xml)?;
         let xml_bytes = xml.as_bytes();
         let xml_length = xml_bytes.len();
